@@ -443,7 +443,7 @@ def access_cases(N):
 
 
 def c13_runs(tier, seed):
-    N = q(tier, 7, 12)
+    N = q(tier, 9, 12)
     ex = access_cases(N)
     runs = [RunSpec("access", sc, "plain", ex, params={"maxn": N})
             for sc in ("d", "Q")]
@@ -457,7 +457,7 @@ def c13_runs(tier, seed):
 reg(Spec(
     "C13", "support windows form the expected interval algebra over the grid",
     c13_runs,
-    rule=("exhaustive small scope: every grid size n = 2..N (N = 7 quick, 12 "
+    rule=("exhaustive small scope: every grid size n = 2..N (N = 9 quick, 12 "
           "thorough), every window of the grid (the empty window plus all "
           "(start,end) pairs: 29 at n = 7, 79 at n = 12), every ordered pair "
           "(second operand on the same grid object and on an equal twin) and "
@@ -613,7 +613,7 @@ reg(Spec(
 
 
 def c17_runs(tier, seed):
-    n = q(tier, 24000, 2000000)
+    n = q(tier, 96000, 2000000)
     return [RunSpec("quad", sc, "plain", n) for sc in ("d", "f", "ld")]
 
 
